@@ -291,6 +291,27 @@ pub fn kernel_counter_dec(value: usize, limit: usize) -> (bool, usize) {
     (r, c.counter.load(std::sync::atomic::Ordering::SeqCst))
 }
 
+/// `n` `inc()`s on one thread against `n` `dec()`s on another, on a counter whose raw value starts at
+/// `value` (> `n`, so it never underflows): the raw value afterwards
+pub fn kernel_counter_race(value: usize, limit: usize, n: usize) -> usize {
+    let c = Counter::new(limit);
+    c.counter.store(value, std::sync::atomic::Ordering::SeqCst);
+    let start = std::sync::Arc::new(std::sync::Barrier::new(2));
+    let (c2, s2) = (c.clone(), start.clone());
+    let t = std::thread::spawn(move || {
+        s2.wait();
+        for _ in 0..n {
+            c2.dec();
+        }
+    });
+    start.wait();
+    for _ in 0..n {
+        c.inc();
+    }
+    t.join().unwrap();
+    c.counter.load(std::sync::atomic::Ordering::SeqCst)
+}
+
 /// `Counter::total()` on a counter whose raw value is `value` (underflows for 0)
 pub fn kernel_counter_total(value: usize) -> usize {
     let c = Counter::new(1);
